@@ -191,7 +191,13 @@ func lockFieldOf(v ssa.Value) string {
 func (c *Ctx) lockOrder() {
 	P, R := c.P, c.R
 	R.Explain("R19.3", "lock order: nodes are locks (by the struct field holding them) and WaitGroup waits; h -> l when l can be acquired (directly, or anywhere in the callees resolved by the call graph) while h is held; h -> wait(W) when W.Wait() is called under h; wait(W) -> l for every lock a function that calls W.Done() can acquire before it gets there.  The graph must have no cycle (self edges on a field, i.e. two instances of the same struct, are not judged).")
-	prod := c.productFuncs()
+	// every function of the server packages, generic instances included (a call resolves to the instance)
+	var prod []*ssa.Function
+	for _, f := range c.P.Funcs {
+		if len(f.Blocks) > 0 && isProductPkg(engine.RelPkg(P.OwnPkgPath(f))) {
+			prod = append(prod, f)
+		}
+	}
 	direct := map[*ssa.Function]map[string]bool{} // locks/waits directly acquired
 	lockOf := map[ssa.Instruction]string{}
 	for _, f := range prod {
@@ -1182,7 +1188,8 @@ func (c *Ctx) stateConfinement() {
 			default:
 				continue
 			}
-			key := fmtf("%s|%s", c.name(site.Parent()), desc)
+			// keyed by the enclosing declared function: closure ordinals shift when closures are added or removed
+			key := fmtf("%s|%s", c.name(topFn(site.Parent())), desc)
 			if unsafe != "" && ownStateGuard(site) {
 				R.Pass("R19.1", key, P.Pos(site.Pos()), "guarded by the own-state test")
 				continue
